@@ -418,10 +418,13 @@ def _drop_one_chunk(work_root, pick):
 def run_case(program, cfg, seed=0, max_latency=0.02):
     """Build and compute `program` under `cfg`.  Returns dict(error, log, facts, events, tmp).
     The log is cut to the lines from `computeStart` to `computeEnd` of the (last) computation."""
+    import logging
     import warnings
 
     import cubed
 
+    # a failing task leaves sibling futures whose exceptions nobody retrieves; asyncio would log them at exit
+    logging.getLogger("asyncio").setLevel(logging.CRITICAL)
     tmp = tempfile.mkdtemp(prefix="verif-sched-")
     log_path = os.path.join(tmp, "trace.log")
     work = os.path.join(tmp, "work")
